@@ -14,7 +14,8 @@ RULE = ('every x = k/10^j (j in 0..4, |k| <= 2000 quick; j in 0..6 on a tie-clos
         '|ROUNDDOWN| <= |x| <= |ROUNDUP|); INT = floor; EVEN / ODD; MOD laws over an integer and decimal grid; '
         'CEILING / FLOOR / .MATH / .PRECISE over x grid x signed significances {1, 2, 0.5, 0.1, 3, 0.25, 0}; generated '
         'binary-float artefacts (all products a*b and quotients a/b of the 2-decimal grid whose float differs from '
-        'the decimal). distinct_nontrivial = (x, digits) pairs where x is an exact tie or an exact multiple, or a float artefact.')
+        'the decimal); 23 extreme magnitudes (1e15+0.5 .. 1.8e308, 5e-324, > 2^53) x 31 digit counts (-10^6 .. 1e10) vs the '
+        'same exact model, #NUM! when the result is not representable. distinct_nontrivial = (x, digits) pairs where x is an exact tie or an exact multiple, or a float artefact.')
 ASSUMPTIONS = ['the expected float is float(exact Fraction) (correctly rounded)',
                'CEILING/FLOOR with number > 0 > significance may return #NUM! (documented) or a bracketing multiple',
                'MOD with non-integers is judged by its two laws with tolerance 1e-9*|n|']
@@ -323,12 +324,62 @@ def work_fresh_thread(job):
     return acc.result()
 
 
+EXT_XS = [2.5, -2.5, 0.125, 0.1 + 0.2, 0.0, 123456789012345.6, 1000000000000000.5, -99999999999999.95, 1e22, 1e23, 1e28, -1e28,
+          12345678901234567890123456789.0, 1e300, -1e300, 1.7976931348623157e308, -1.7976931348623157e308, 5e-324, -5e-324, 1e-300,
+          0.5, 5e27, 4.999999999999999e27]
+EXT_DS = [-10 ** 6, -400, -309, -308, -307, -30, -29, -28, -27, -20, -16, -15, 15, 16, 17, 20, 27, 28, 29, 30, 100, 307, 308, 309, 323, 324,
+          325, 400, 10 ** 6, 1e10, -1e10]
+
+
+def expect_round(x, d, mode):
+    """exact result as a float, '#NUM!' when it is not representable.  No float has a decimal digit beyond 10^+-400,
+    so clamping the digit position there leaves the mathematical result unchanged (and the model fast)."""
+    d = max(-400, min(400, int(d)))
+    try:
+        return float(rnd(F(x), d, mode))
+    except OverflowError:
+        return '#NUM!'
+
+
+def work_extremes(job):
+    """magnitudes and digit counts far outside the everyday grid: the decimal machinery must not run out of precision
+    (28 significant digits by default), lose the exponent of 10^-d, or overflow silently"""
+    acc = Acc()
+    ev = feval.Evaluator()
+    for x in EXT_XS:
+        for d in EXT_DS:
+            env = {'A1': x, 'B1': d}
+            for fn, mode in (('ROUND', 'half'), ('ROUNDDOWN', 'down'), ('ROUNDUP', 'up'), ('TRUNC', 'down')):
+                o = ev.run(f'={fn}(A1,B1)', env)
+                acc.add('evaluations')
+                acc.add('states')
+                acc.add('distinct_nontrivial')
+                e = expect_round(x, d, mode)
+                case = dict(kind='round', fn=fn, x=x, digits=d, extreme=True)
+                if o[0] != 'ok':
+                    acc.violation(dict(case, verdict='raised', exc=o[1]), f'={fn}({x!r},{d}) raised {o[1]}: {o[2][-80:]}')
+                elif isinstance(o[1], bool) or not (o[1] == e and (isinstance(e, str) or isinstance(o[1], (int, float)))):
+                    acc.violation(dict(case, verdict='wrong-value', observed=jsonable(o[1]), expected=e),
+                                  f'={fn}({x!r},{d}) = {o[1]!r}, exact decimal arithmetic gives {e!r}')
+        for fn, e in (('INT', math.floor(F(x))), ('TRUNC', math.trunc(F(x))), ('ROUND', None)):
+            o = ev.run(f'={fn}(A1)' if fn != 'ROUND' else '=ROUND(A1,0)', {'A1': x})
+            acc.add('evaluations')
+            if e is None:
+                e = expect_round(x, 0, 'half')
+            if o[0] != 'ok' or isinstance(o[1], bool) or not isinstance(o[1], (int, float)) or o[1] != float(e):
+                acc.violation(dict(kind='round', fn=fn + '1', verdict='wrong-value', x=x, digits=None, extreme=True, observed=jsonable(o[:2]),
+                                   expected=float(e)), f'={fn}({x!r}) = {o[:2]!r}, expected {float(e)!r}')
+    acc.counts['transitions'] = acc.counts.get('evaluations', 0)
+    return acc.result()
+
+
 def run(ctx):
     m = 64
     ctx.pmap(work_fresh_thread, [(0,), (1,)], timeout=600)
     ctx.pmap(work_round, [((k + ctx.seed) % m, m, ctx.thorough) for k in range(m)], timeout=6000)
     ctx.pmap(work_brackets, [(k, 32, ctx.thorough) for k in range(32)], timeout=6000)
     ctx.pmap(work_mod, [(0,)], timeout=1200)
+    ctx.pmap(work_extremes, [(0,)], timeout=1200)
     ctx.pmap(work_artefacts, [(k, 8) for k in range(8)], timeout=1200)
     ctx.sample(dict(formula='=ROUND(25,-1)', expected=30, note='tie away from zero, negative digits'))
     ctx.sample(dict(formula='=TRUNC(0.29,2)', expected=0.29, note='exact multiple is fixed'))
@@ -348,8 +399,8 @@ def replay(case):
         mode = {'ROUND': 'half', 'ROUNDDOWN': 'down', 'ROUNDUP': 'up', 'TRUNC': 'down'}.get(fn)
         if mode is None:
             return True, f'{o[:2]!r}'
-        e = rnd(F(x), case['digits'], mode)
-        return o[0] != 'ok' or not same(o[1], e), f"={fn}({x!r},{case['digits']}) -> {o[:2]!r}; exact {fl(e)!r}"
+        e = expect_round(x, case['digits'], mode)
+        return o[0] != 'ok' or isinstance(o[1], bool) or o[1] != e, f"={fn}({x!r},{case['digits']}) -> {o[:2]!r}; exact {e!r}"
     if case['kind'] == 'bracket':
         o = ev.run(f"={case['fn']}(A1,B1)", {'A1': case['x'], 'B1': case['sig']})
         exp = bracket_expected(case['fn'], F(case['x']), F(case['sig']))
